@@ -20,15 +20,19 @@ for p in props:
     i=p["id"]
     if i in claimed:
         lvl,text,tech=claimed[i]
+        if i in ("C12","C15","C17","C18"):
+            tech+="; coverage-guided fuzzing (libFuzzer via cargo-fuzz, structured decoding, oracle inside the target): saved-corpus replay in the quick tier, campaigns in the thorough tier"
+        if i not in ("C19","C20"):
+            tech+="; every run is followed by a second pass of the quick tier with OxiDD built with debug assertions and overflow checks"
         checks.append({"property_id":i,"quick_cmd":f"bin/check {i} quick","thorough_cmd":f"bin/check {i} thorough","evidence_file":f"evidence/{i}.json","replay_cmd_template":f"bin/check {i} quick --replay {{path}}","engine":"vrun",
           "level_claimed":{"category":lvl,"text":text,"design_ref":f"DESIGN.md §3 {i}"},
           "level_note":"oracle = reference model written in the harness (truth/value tables, reference canonical forms); trusted: harness code, rustc; bounded exploration, no absence claim","technique":tech})
 hooks=json.load(open('/verif/bin/hooks.json')) if os.path.exists('/verif/bin/hooks.json') else []
 m={"version":1,"setup_cmd":"bin/setup",
 "hooks":{"guard":"oxidd_verif","enable":"RUSTFLAGS='--cfg oxidd_verif' (set by bin/check and bin/setup for every harness build)","baseline_off_cmd":"cd /repo && cargo test --workspace --no-fail-fast --offline","source_commits":hooks,"add_only":True},
-"engines":[{"name":"vrun","path":"harness","serves_properties":sorted(claimed),"kind_free_text":"Rust harness (proptest 1.11 driven from main): exhaustive small-scope enumeration + generated cases/histories against truth-table models; every job/case runs in a forked child so aborts become verdicts"}],
+"engines":[{"name":"vrun","path":"harness","serves_properties":sorted(claimed),"kind_free_text":"Rust harness (proptest 1.11 driven from main): exhaustive small-scope enumeration + generated cases/histories against truth-table models; every job/case runs in a forked child so aborts become verdicts; built twice (release, and profile relcheck with debug assertions + overflow checks); libFuzzer targets in harness/fuzz reuse the oracles"}],
 "checks":checks,
 "not_applicable":[{"property_id":p["id"],"reason":"check under construction in this round (DESIGN.md §7 build order); not claimed until built"} for p in props if p["id"] not in claimed],
-"notes":"Known findings: /verif/known_findings.json. Replays: /verif/replays/<id>/."}
+"notes":"Known findings: /verif/known_findings.json. Replays: /verif/replays/<id>/. Seeded breaking changes and the catch matrix: /verif/seeded/ (MATRIX.md). Exit 2 = inconclusive (watchdog, build problem), never a violation."}
 json.dump(m,open('/verif/MANIFEST.json','w'),indent=1)
 print(len(checks),"checks")
